@@ -223,6 +223,10 @@ func c22RunReader(tb ev.TB, rec *ev.Rec, c *c22RCase, gen string) {
 				continue
 			}
 			e1, e2 := br.UnreadByte(), sr.UnreadByte()
+			if prevRead == "Line" && e1 != nil && e2 == nil {
+				unreadAfterLine = true
+				bad("unreadbyte-after-readslice", "UnreadByte after %s refused (%v); the last byte read was %02x and std unreads it", c.Ops[i-1].Op, e1, S[pos-1])
+			}
 			cmpErr(e1, e2)
 			if e1 == nil {
 				pos--
@@ -231,7 +235,7 @@ func c22RunReader(tb ev.TB, rec *ev.Rec, c *c22RCase, gen string) {
 					// "UnreadByte unreads the last byte": after ReadSlice/ReadLine-less line ops that is the last byte handed out
 					unreadAfterLine = true
 					if pk, _ := br.Peek(1); len(pk) != 1 || pk[0] != S[pos] {
-						bad("unreadbyte-after-readslice-wrong-byte", "UnreadByte after %s pushed back %x, the last byte read was %02x", c.Ops[i-1].Op, pk, S[pos])
+						bad("unreadbyte-after-readslice", "UnreadByte after %s pushed back %x, the last byte read was %02x", c.Ops[i-1].Op, pk, S[pos])
 					}
 				}
 			}
